@@ -6,6 +6,7 @@ export CARGO_NET_OFFLINE=true
 mkdir -p .build coq/Gen
 (cd translator && cargo build --offline)
 .build/translator/debug/rs2v /repo coq/Gen
+python3 tools/uapi_gen.py coq/Gen
 (cd coq && coq_makefile -f _CoqProject -o Makefile && timeout 3000 make -j16)
 mkdir -p .build/ocaml
 (cd .build/ocaml && coqc -Q ../../coq VV ../../coq/Extract/Extract.v && cp ../../ocaml/driver.ml . && \
